@@ -385,11 +385,15 @@ func (g *Graph) ObjNilFact(loc Loc, o types.Object) (isNil, known bool) {
 		return false, false
 	}
 	cl := g.CondLoc(best.Blk)
+	// an assignment invalidates the fact when it can reach loc without the test being made again
 	for _, as := range g.AssignsTo(o) {
-		if g.Dominates(cl, as.Loc) && as.Loc != cl && g.Reaches(as.Loc, loc) {
+		if as.Loc == cl {
+			continue
+		}
+		if g.Dominates(cl, as.Loc) && g.ReachesAvoiding(as.Loc, loc, cl) {
 			return false, false
 		}
-		if as.Loc.B != cl.B && g.Reaches(cl, as.Loc) && g.Reaches(as.Loc, loc) && !g.Dominates(as.Loc, cl) {
+		if as.Loc.B != cl.B && g.Reaches(cl, as.Loc) && g.ReachesAvoiding(as.Loc, loc, cl) && !g.Dominates(as.Loc, cl) {
 			return false, false
 		}
 	}
